@@ -9,11 +9,15 @@ theorem verdict : (classify Generated.factsC25).Sound (Holds (cfgOf Generated.fa
 #eval IO.println (verdictLine "C25" (classify Generated.factsC25))
 #print axioms verdict
 #print axioms failed_write_drops_entries
-#print axioms repaired_flush_partial
-#print axioms repaired_writer_safe_partial
+#print axioms repaired_flush
+#print axioms holds_of_repaired
+#print axioms holds_repaired
+#print axioms flushWF_ok_spec
+#print axioms addManyWF_ok_spec
+#print axioms syncWF_ok_spec
 #print axioms finish_clean
-#print axioms Hv.Storage.flushWF_nofault
-#print axioms Hv.Storage.addManyWF_nofault
-#print axioms Hv.Storage.syncWF_nofault_disk
+#print axioms Hv.BlockStore.flushWF_nofault
+#print axioms Hv.BlockStore.addManyWF_nofault
+#print axioms Hv.BlockStore.syncWF_nofault_disk
 
 end Hv.C25
